@@ -11,7 +11,9 @@ VARIABLE x
 Thorough == Tier = "thorough"
 Byte32(k) == [i \in 1..32 |-> (Seed * 17 + k * 29 + i * 7) % 256]
 LenPool == <<0, 1, 255, 256, 65535, 65536, 65537, 16777219, 4104, 2>>
-Lens(nx, k) == [i \in 1..nx |-> LenPool[((i + k) % Len(LenPool)) + 1]]
+\* extrinsic specs of an item: hash ids and lengths; every third k repeats each (hash, length) spec twice
+Hids(nx, k) == [i \in 1..nx |-> IF k % 3 = 0 THEN (i - 1) \div 2 ELSE i - 1]
+Lens(nx, k) == [i \in 1..nx |-> LenPool[((Hids(nx, k)[i] + 1 + k) % Len(LenPool)) + 1]]
 Payload(k) == [i \in 1..((k * 7) % 41) |-> (k + i * 3) % 256]
 Results == << [t |-> "ok", data |-> <<>>], [t |-> "ok", data |-> <<1, 2, 3>>], [t |-> "ok", data |-> Rep(170, 300)],
               [t |-> "out-of-gas", data |-> <<>>], [t |-> "panic", data |-> <<>>], [t |-> "bad-exports", data |-> <<>>],
@@ -22,7 +24,7 @@ ECounts == <<0, 1, 2, 3, 255, 256, 65535, 7, 19, 3072>>
 
 Item(ni, nx, k) ==
   [s |-> Services[(k % Len(Services)) + 1], c |-> Byte32(k), a |-> Gases[((k + 2) % Len(Gases)) + 1], g |-> Gases[((k + 4) % Len(Gases)) + 1],
-   e |-> ECounts[((k + ni) % Len(ECounts)) + 1], payload |-> Payload(k), ni |-> ni, ext |-> Lens(nx, k)]
+   e |-> ECounts[((k + ni) % Len(ECounts)) + 1], payload |-> Payload(k), ni |-> ni, ext |-> Lens(nx, k), exth |-> Hids(nx, k)]
 CCase(ni, nx, k) ==
   LET w == Item(ni, nx, k) IN
   [kind |-> "C", item |-> w, result |-> Results[((k + nx) % Len(Results)) + 1], u |-> Gases[((k + ni + nx) % Len(Gases)) + 1],
@@ -41,24 +43,41 @@ ACase(n, k) ==
    segs |-> segs, want_root |-> M(segs, "b2b")]
 ACases == {ACase(n, k) : n \in ExportCounts, k \in 0..(IF Thorough THEN 7 ELSE 1)}
 
-\* ---- Xi: whole report computation with a scripted refinement (the driver's executor replays `outs`)
+\* ---- Xi: whole report computation with a scripted refinement (the driver's executor replays `outs`).
+\* outcome kinds: ok = success with the declared number of exports; err_none / err_exact / err_more / err_fewer =
+\* failed refinement handing back 0 / exactly / more / fewer segments than declared; ok_more / ok_fewer = success with a
+\* wrong number of segments; big = success, declared exports, 30000-byte output (two of them exceed W_R together);
+\* huge = success, declared exports, 50000-byte output (exceeds W_R alone)
 SmallE == <<0, 1, 2, 3, 5>>
-XItem(ni, nx, k) == [Item(ni, nx, k) EXCEPT !.e = SmallE[((k + ni) % Len(SmallE)) + 1]]
-Classes == <<"ok", "err", "count", "ok">>
-XiCase(n, k) ==
-  LET ws == [jj \in 1..n |-> XItem((jj + k) % 4, (jj * 2 + k) % 5, jj + 3 * k)]
-      cl == [jj \in 1..n |-> Classes[((jj + k) % 4) + 1]]
-      owns == [jj \in 1..n |-> CASE cl[jj] = "ok" -> [q \in 1..ws[jj].e |-> Segment(<<jj, q, k>>)]
-                                  [] cl[jj] = "err" -> <<>>
-                                  [] OTHER -> [q \in 1..(ws[jj].e + 1 + (k % 2)) |-> Segment(<<jj, q, 99>>)]]
-      outs == [jj \in 1..n |-> [t |-> IF cl[jj] = "err" THEN (IF (jj + k) % 2 = 0 THEN "panic" ELSE "out-of-gas") ELSE "ok",
-                                 data |-> IF cl[jj] = "err" THEN <<>> ELSE <<jj, k, 5>>,
-                                 segs |-> owns[jj], u |-> Gases[((jj + k) % Len(Gases)) + 1]]]
-      all == AllSegments(ws, cl, owns, 1)
-  IN [kind |-> "Xi", items |-> ws, classes |-> cl, outs |-> outs, h |-> Byte32(200 + n + k), blen |-> BundleLens[((n + k) % Len(BundleLens)) + 1],
-      bfill |-> k, core |-> k % 2, authgas |-> Gases[(k % Len(Gases)) + 1], authout |-> <<k, 1>>,
+XKinds == <<"ok", "err_none", "ok_more", "err_exact", "ok", "ok_fewer", "err_more", "big", "err_fewer", "huge">>
+NeedsExports(kd) == kd \in {"err_exact", "err_fewer", "ok_fewer", "big", "huge"}
+XItem(ni, nx, k, kd) == LET e0 == SmallE[((k + ni) % Len(SmallE)) + 1]
+                        IN [Item(ni, nx, k) EXCEPT !.e = IF NeedsExports(kd) /\ e0 = 0 THEN 2 ELSE e0]
+NRet(kd, e) == CASE kd \in {"ok", "err_exact", "big", "huge"} -> e
+                 [] kd = "err_none" -> 0
+                 [] kd \in {"ok_more", "err_more"} -> e + 1
+                 [] OTHER -> e - 1
+XiOf(kinds, k) ==
+  LET n == Len(kinds)
+      ws == [jj \in 1..n |-> XItem((jj + k) % 4, (jj * 2 + k) % 5, jj + 3 * k, kinds[jj])]
+      owns == [jj \in 1..n |-> [q \in 1..NRet(kinds[jj], ws[jj].e) |-> Segment(<<jj, q, k + 1>>)]]
+      outs == [jj \in 1..n |->
+                 [t |-> IF kinds[jj] \in {"err_none", "err_exact", "err_more", "err_fewer"} THEN (IF (jj + k) % 2 = 0 THEN "panic" ELSE "out-of-gas") ELSE "ok",
+                  data |-> IF kinds[jj] \in {"err_none", "err_exact", "err_more", "err_fewer"} THEN <<>> ELSE <<jj, k, 5>>,
+                  datarep |-> IF kinds[jj] = "big" THEN 30000 ELSE IF kinds[jj] = "huge" THEN 50000 ELSE 0,
+                  segs |-> owns[jj], u |-> Gases[((jj + k) % Len(Gases)) + 1]]]
+      script == [jj \in 1..n |-> [t |-> outs[jj].t, dlen |-> Len(outs[jj].data) + outs[jj].datarep, nret |-> Len(owns[jj])]]
+      authout == <<k, 1>>
+      failed == FailedItems(ws, script, Len(authout))
+      all == AllSegments(ws, failed, owns, 1)
+  IN [kind |-> "Xi", kinds |-> kinds, items |-> ws, outs |-> outs, h |-> Byte32(200 + n + k), blen |-> BundleLens[((n + k) % Len(BundleLens)) + 1],
+      bfill |-> k, core |-> k % 2, authgas |-> Gases[(k % Len(Gases)) + 1], authout |-> authout,
       want_ys |-> [jj \in 1..n |-> B2b(Lit(ws[jj].payload))], want_root |-> M(all, "b2b"), nsegs |-> Len(all), offsets |-> ExportOffsets(ws)]
-XiCases == {XiCase(n, k) : n \in 1..(IF Thorough THEN 8 ELSE 4), k \in 0..(IF Thorough THEN 39 ELSE 3)}
+Rotated(n, k) == [jj \in 1..n |-> XKinds[((jj + k) % Len(XKinds)) + 1]]
+FixedKinds == {<<"big", "big">>, <<"huge", "ok">>, <<"err_exact", "ok">>, <<"ok", "err_exact", "err_more", "ok_fewer">>, <<"big", "ok", "big", "ok">>,
+               <<"ok", "err_fewer", "err_none", "ok">>}
+XiCases == {XiOf(Rotated(n, k), k) : n \in 1..(IF Thorough THEN 8 ELSE 4), k \in 0..(IF Thorough THEN 39 ELSE 4)}
+           \cup {XiOf(ks, k) : ks \in FixedKinds, k \in 0..(IF Thorough THEN 5 ELSE 0)}
 
 Cases == SetToSeq(CCases) \o SetToSeq(ACases) \o SetToSeq(XiCases)
 ASSUME ndJsonSerialize(OutFile, Cases)
